@@ -55,6 +55,10 @@ def gen_objdef(rng, feat, placeholders=None):
             kw['b'] = rng.choice([3, 4, 'z'])
         if rng.random() < 0.3:
             kw['verbose'] = rng.choice([True, False])
+        if feat.get('sub_objects', True) and rng.random() < 0.3:
+            if rng.random() < 0.6:
+                kw['limit'] = rng.choice([10, 11, 'z', [1]])
+            return {'class': 'tc_verif.lab.runtime.LabObjSub', 'kwargs': kw}
         return {'class': 'tc_verif.lab.runtime.LabObj', 'kwargs': kw}
     return {'class': 'tc_verif.lab.runtime.LabObjPlain', 'kwargs': {'x': rng.choice([1, 2, 'u', [1, 2]])}}
 
@@ -473,18 +477,24 @@ def add_inputs(rng, spec, fnames, mounts, feat, extra_mounts=()):
             if feat['optional_inputs'] and (rng.random() < 0.1 or (mi in (spec.get('ns_twin_files') or []) and rng.random() < 0.6)):
                 absent = 'absent_task_zz'
                 twins_ = spec.get('ns_twin_files') or []
+                import re as _re2
+                _pats = [i_['ref'] for i_ in t['inputs'] if i_['form'] in ('pattern', 'pattern_all')]
+
+                def _pattern_hit(bare):
+                    # a pattern input of this task may deliver a task with that bare name: the short lookup would be ambiguous
+                    return any(_re2.fullmatch(p_, bare) for p_ in _pats)
                 if mi in twins_ and rng.random() < 0.8:
                     # two different files are mounted under namespaces that are suffix-related (`n`, `a::n`): name a task of the OTHER file
                     oj = twins_[1] if mi == twins_[0] else twins_[0]
                     cand_ = [slug_of(u_, pkg, modules[oj]).split(':')[-1] for u_ in modules[oj]['tasks'] if not u_.get('abstract')]
-                    cand_ = [c_ for c_ in cand_ if c_ not in {p_['name'] for p_ in t['params']}]
+                    cand_ = [c_ for c_ in cand_ if c_ not in {p_['name'] for p_ in t['params']} and not _pattern_hit(c_)]
                     if cand_:
                         absent = rng.choice(cand_)
                 elif rng.random() < 0.5:
                     # the name of a task that exists somewhere in the pipeline (usually not in this task's namespace: then it is absent here)
                     others = [slug_of(u_, pkg, modules[j_]).split(':')[-1] for j_ in range(n_mod) if j_ != mi for u_ in modules[j_]['tasks'] if not u_.get('abstract')]
                     taken_bares = {i_.get('ref', '').split('::')[-1].split(':')[-1] for i_ in t['inputs']} | {i_.get('arg') for i_ in t['inputs']}
-                    others = [o_ for o_ in others if o_ not in taken_bares and o_ not in {p_['name'] for p_ in t['params']}]
+                    others = [o_ for o_ in others if o_ not in taken_bares and o_ not in {p_['name'] for p_ in t['params']} and not _pattern_hit(o_)]
                     if others:
                         absent = rng.choice(others)
                 t['inputs'].append({'form': 'name', 'ref': absent, 'optional': True, 'default': rng.choice([None, 5, 'd']),
